@@ -136,6 +136,10 @@ impl Stats {
         self.bump("timer_oversleep", h.stats.oversleeps);
         self.bump("busy_poll_time_jump", h.stats.busy_jumps);
         self.bump("slow_consumer_stall", h.stats.consumer_stalls);
+        self.bump("stale_waker_ignored", h.stats.stale_wakes);
+        if plan.sched.fresh_wakers {
+            self.bump("run_with_fresh_waker_per_poll", 1);
+        }
         for (k, v) in &h.probes {
             *self.probes.entry(k.clone()).or_insert(0) += v;
         }
